@@ -2,6 +2,8 @@ import Driver.Util
 import Sqfs.Model.Path
 import Sqfs.Spec.HardLink
 import Sqfs.Model.TextParse
+import Sqfs.Model.C07Lines
+import Sqfs.Model.C07ReadHeader
 namespace Driver.C07
 open Sqfs.HardLink
 
@@ -11,9 +13,15 @@ structure Ent where
   kind : Tree.Kind
   name : List UInt8
   target : List UInt8
+  /-- `c:<namehex>:<decimal>` — harness-only set-up step `node->link_count = v` (see `Tree.setCount`) -/
+  poke : Option Nat := none
 
 def parseEnt (tok : String) : Option Ent :=
   match tok.splitOn ":" with
+  | ["c", n, v] => do
+    let name ← fromHex n
+    let v ← v.toNat?
+    if v ≤ 0xFFFFFFFF ∧ Sqfs.Path.canonicalize name = some name then some { kind := .other, name, target := [], poke := some v } else none
   | [k, n, t] => do
     let kind ← (match k with
       | "d" => some Tree.Kind.dir
@@ -31,12 +39,15 @@ def errnoStr : Errno → String
   | .ENOENT => "ENOENT" | .ENOTDIR => "ENOTDIR" | .EMLINK => "EMLINK" | .EPERM => "EPERM"
 
 def addErrStr : Tree.AddErr → String
-  | .EINVAL => "EINVAL" | .ENOTDIR => "ENOTDIR" | .EEXIST => "EEXIST"
+  | .EINVAL => "EINVAL" | .ENOTDIR => "ENOTDIR" | .EEXIST => "EEXIST" | .ENAMETOOLONG => "ENAMETOOLONG"
+  | .EMLINK => "EMLINK" | .ENOENT => "ENOENT"
 
 def buildTree : Tree.T → Nat → List Ent → Except String Tree.T
   | t, _, [] => .ok t
   | t, i, e :: rest =>
-    match Tree.addGeneric Sqfs.Path.canonicalize t e.name e.kind e.target with
+    match (match e.poke with
+           | some v => Tree.setCount t e.name v
+           | none => Tree.addGeneric Sqfs.Path.canonicalize t e.name e.kind e.target) with
     | .error err => .error s!"adderr {i} {addErrStr err}"
     | .ok t' => buildTree t' (i + 1) rest
 
@@ -117,11 +128,36 @@ def showPax (o : PaxOut) : String :=
   " link=" ++ showOptHex o.link ++ " sparse=[" ++ (showSparse o.sparse).trimAscii.toString ++ "] xattr=[" ++
   (String.join (o.xattr.map (fun x => " " ++ toHexTok x.key ++ "=" ++ toHexTok x.value))).trimAscii.toString ++ "]"
 
+def showTarHdr (t : TarHdr) (rest : Nat) : String :=
+  "ok name=" ++ toHexTok t.name ++ " link=" ++ showOptHex t.link ++ " mode=" ++ String.ofList (Nat.toDigits 8 t.mode) ++
+  " uid=" ++ toString t.uid ++ " gid=" ++ toString t.gid ++ " mtime=" ++ toString t.mtime ++ " size=" ++ toString t.recordSize ++
+  " actual=" ++ toString t.actualSize ++ " sparse=[" ++ (showSparse t.sparse).trimAscii.toString ++ "] xattr=[" ++
+  (String.join (t.xattr.map (fun x => " " ++ toHexTok x.key ++ "=" ++ toHexTok x.value))).trimAscii.toString ++
+  "] unknown=" ++ (if t.unknown then "1" else "0") ++ " hard=" ++ (if t.hardLink then "1" else "0") ++
+  " rest=" ++ toString rest
+
+/-- every member: `readHeader`, then skip the record data and its padding like the tar iterator (not part of any theorem) -/
+def rhAll : Nat → List UInt8 → List String
+  | 0, _ => ["more"]
+  | fuel + 1, s =>
+    match (readHeader s).res with
+    | .eof => ["eof"]
+    | .fail c => ["fail " ++ toString c]
+    | .oob => ["oob"]
+    | .spin => ["spin"]
+    | .ok t rest =>
+      let skip := t.recordSize
+      if skip > rest.length then [showTarHdr t rest.length, "skipfail"]
+      else
+        let skip := if skip % 512 ≠ 0 then skip + (512 - skip % 512) else skip
+        if skip > rest.length then [showTarHdr t rest.length, "skipfail"]
+        else showTarHdr t rest.length :: rhAll fuel (rest.drop skip)
+
 def parserStep : List String → Option String
-  | ["num", fx, h, d] => do
+  | ["num", h, d] => do
     let buf ← fromHex h
     let digits ← d.toNat?
-    pure (showR (fun v => " " ++ toString v) (readNumber (fx = "1") buf 0 digits))
+    pure (showR (fun v => " " ++ toString v) (readNumber buf 0 digits))
   | ["puint", base, len, wd, vmin, vmax, h] => do
     let s ← fromHex h
     let b ← base.toNat?
@@ -165,29 +201,88 @@ def parserStep : List String → Option String
   | ["xdec", h] => do
     let s ← fromHex h
     pure (showR (fun v => " " ++ toHexTok v) (xattrDecode (s ++ [0])))
-  | ["pax", fx, h] => do
+  | ["pax", h] => do
     let s ← fromHex h
-    pure (showR showPax (readPaxHeader (fx = "1") s))
+    pure (showR showPax (readPaxHeader s))
   | ["spnew", rs, h] => do
     let s ← fromHex h
     let r ← rs.toNat?
     pure (showR (fun (v : List SparseEnt × Nat × List UInt8) => " " ++ toString v.2.1 ++ " " ++ toString v.2.2.length ++ showSparse v.1)
       (readGnuNewSparse s r))
-  | ["spold", fx, hh, h] => do
+  | ["spold", hh, h] => do
     let hdr ← fromHex hh
     let s ← fromHex h
-    pure (match readGnuOldSparse (fx = "1") hdr s with
-      | .ok ([], _) => "fail"                 -- an empty map is `NULL`, which `read_header` takes for failure
+    pure (match readGnuOldSparse hdr s with
+      | .ok ([], _) => "fail 0"               -- an empty map is `NULL` (no diagnostic), which `read_header` takes for failure
       | r => showR (fun (v : List SparseEnt × List UInt8) => " " ++ toString v.2.length ++ showSparse v.1) r)
+  | ["rh", h] => do
+    let s ← fromHex h
+    pure (String.intercalate " ; " (rhAll 64 s))
+  | ["rhalloc", h] => do
+    -- monitor: the sizes `read_header` passes to `record_to_memory`, in order
+    let s ← fromHex h
+    pure ("allocs" ++ String.join ((readHeader s).allocs.reverse.map (fun n => " " ++ toString n)))
   | _ => none
 
 end Parsers
+
+/-! ### `gl`: a whole text input through `istream_get_line` -/
+
+/-- content tokens: `h<hex>` literal bytes, `r<count>x<hh>` a run of one byte -/
+def contentTok (t : String) : Option (List UInt8) :=
+  if t.startsWith "h" then fromHex (t.drop 1).toString
+  else if t.startsWith "r" then
+    match ((t.drop 1).toString.splitOn "x") with
+    | [c, b] => do
+      let n ← c.toNat?
+      let bs ← fromHex b
+      match bs with
+      | [x] => if n ≤ 67108864 then some (List.replicate n x) else none
+      | _ => none
+    | _ => none
+  else none
+
+def fnvByte (h : UInt64) (b : UInt8) : UInt64 := (h ^^^ b.toUInt64) * 1099511628211
+
+def fnvLines (ls : List (List UInt8 × Nat)) : UInt64 :=
+  ls.foldl (fun h (l : List UInt8 × Nat) =>
+    let h := l.1.foldl fnvByte h
+    let h := fnvByte h 10
+    let h := (toString l.2).toUTF8.foldl fnvByte h
+    fnvByte h 10) 1469598103934665603
+
+def hex16 (v : UInt64) : String :=
+  let s := String.ofList (Nat.toDigits 16 v.toNat)
+  String.ofList (List.replicate (16 - s.length) '0') ++ s
+
+def errNum : Sqfs.IoLoops.Err → String
+  | .ok => "0" | .io => "3" | .oob => "8" | .compressor => "4" | .fuel => "fuel" | _ => "other"
+
+def showLines (r : Sqfs.C07Lines.Lines) : String :=
+  match r.err with
+  | some .fuel => "spin"
+  | some e => "fail " ++ errNum e
+  | none => "ok " ++ toString r.lines.length ++ " " ++ toString r.lineNum ++ " " ++
+      toString (r.lines.foldl (fun a l => a + l.1.length) 0) ++ " " ++ hex16 (fnvLines r.lines)
+
+def glStep (spec : Bool) : List String → String
+  | b :: f :: toks =>
+    match b.toNat?, f.toNat?, toks.mapM contentTok with
+    | some B, some flags, some parts =>
+      if B = 0 then "bad-op"
+      else
+        let data := parts.foldr (· ++ ·) []
+        showLines (if spec then Sqfs.C07Lines.specFile flags data else Sqfs.C07Lines.readFile B flags data)
+    | _, _, _ => "bad-op"
+  | _ => "bad-op"
 
 def step (line : String) : String :=
   match parserStep (words line) with
   | some r => r
   | none =>
   match words line with
+  | "gl" :: toks => glStep false toks
+  | "glspec" :: toks => glStep true toks
   | "hl" :: toks => hlStep none toks
   | "hlspec" :: toks => hlSpec toks
   | "hlcur" :: f :: toks => match f.toNat? with
